@@ -477,7 +477,8 @@ def r_sentence_loop(repo, rep, R, table_info):
         too_long = any('max_length' in show(c) and pol for c, pol, _ in st.conds)
         for a in apps:
             v = a[2][0]
-            is_failed = v[0] == 'call' and v[1][0] == 'func' and v[1][1] == 'failed'
+            fnames = {f_.name for f_ in find_failed(run)}
+            is_failed = v[0] == 'call' and v[1][0] == 'func' and v[1][1] in fnames
             if status_fail or too_long:
                 rep.check(is_failed, R, w(loop), 'run:loop:failure-placeholder:%s' % ('status' if status_fail else 'length'),
                           'a sentence that %s yields only its own failure placeholder' % ('fails to parse' if status_fail else 'is too long'),
@@ -520,7 +521,7 @@ def r_sentence_loop(repo, rep, R, table_info):
     rep.check(fresh_per_sentence, R, w(loop), 'run:loop:fresh-buffers', 'tree and score buffers are created inside the sentence loop',
               'tree/score buffers are created outside the sentence loop and carry over between sentences')
     # failed()
-    failed = [s for s in run.body if isinstance(s, ast.FunctionDef) and s.name == 'failed']
+    failed = find_failed(run)
     ok = False
     detail = 'failed() not found'
     if failed:
@@ -542,11 +543,18 @@ def r_sentence_loop(repo, rep, R, table_info):
     return {'paths': len(entered)}
 
 
+def find_failed(run):
+    """the nested zero-argument helper of run() that builds the failure placeholder (by role, not by name)"""
+    c = [s_ for s_ in run.body if isinstance(s_, ast.FunctionDef) and 'ScoredTree' in src(s_) and 'make_terminal' in src(s_)
+         and not any(isinstance(n, ast.Call) and src(n.func) == 'parse_sentence' for n in ast.walk(s_))]
+    return c
+
+
 def r_failed_placeholder(repo, rep, R):
     """the failure placeholder is one fresh single-leaf tree (word constant, plain atomic category) with score -inf:
     every printer handles a leaf, none needs a rule label for it."""
     mod, run = _run_fn(repo)
-    failed = [s_ for s_ in run.body if isinstance(s_, ast.FunctionDef) and s_.name == 'failed']
+    failed = find_failed(run)
     w = '%s:%s run.failed' % (REL, failed[0].lineno if failed else run.lineno)
     ok = False
     detail = 'failed() not found'
